@@ -727,8 +727,24 @@ func CheckFind(pj *simdjson.ParsedJson, roots []*MV) (diff string, err error) {
 
 // MarshalRoot marshals the whole tape from a fresh iterator.
 func MarshalRoot(pj *simdjson.ParsedJson) (out []byte, err error) {
+	return MarshalRootVia(pj, 0)
+}
+
+// MarshalRootVia marshals the whole tape from a root iterator obtained in one of three documented ways:
+// 0 a fresh Iter(), 1 after Advance() queued the first root (the README's way), 2 after AdvanceInto().
+func MarshalRootVia(pj *simdjson.ParsedJson, how int) (out []byte, err error) {
 	err = safely(func() error {
 		it := pj.Iter()
+		switch how {
+		case 1:
+			if t := it.Advance(); t != simdjson.TypeRoot {
+				return fmt.Errorf("Advance on a fresh iterator returned %v, not root", t)
+			}
+		case 2:
+			if t := it.AdvanceInto(); t != simdjson.TagRoot {
+				return fmt.Errorf("AdvanceInto on a fresh iterator returned %v, not root", t)
+			}
+		}
 		var e error
 		out, e = it.MarshalJSON()
 		return e
